@@ -437,7 +437,7 @@ var purePkgs = setOf(
 	"fmt", "strings", "bytes", "sort", "strconv", "unicode", "unicode/utf8", "errors", "reflect", "io", "bufio", "log",
 	"go/ast", "go/token", "go/scanner", "go/parser", "go/printer", "go/format", "path/filepath", "path",
 	"go.uber.org/multierr", "github.com/google/go-intervals/intervalset", "golang.org/x/tools/go/ast/astutil",
-	"github.com/pkg/diff", "github.com/jessevdk/go-flags", "golang.org/x/tools/imports", "io/fs", "math", "slices", "maps",
+	"github.com/pkg/diff", "github.com/jessevdk/go-flags", "golang.org/x/tools/imports", "io/fs", "math", "slices", "maps", "cmp", "iter", "unicode/utf16", "math/bits", "container/list", "container/heap", "text/tabwriter", "regexp", "sync", "sync/atomic",
 )
 
 // pureExceptions are functions of otherwise pure packages that touch the file
